@@ -10,10 +10,11 @@
       property.  Here the analysis is evaluated on the regenerated trees, with a small hand-audited table of tolerated sites
       (`toleratedSites`, each with its justification) that is proved to be exactly the set of drop sites of the regenerated code:
       a new dropped-error path changes a regenerated definition and breaks `c10_flow_all_ok` / `c10_tolerated_audited`.
-      `c10_fail_closed_handlers_partial`: for every regenerated function, every execution, every failing storage call, every
+      `c10_fail_closed_handlers`: for every regenerated function, every execution, every failing storage call, every
       error kind: no success-building step and no further storage call follows and the function ends in the error class
-      (error responder, or an error return its caller turns into one) - unless the failure arrived at an audited site.
-      "partial": two of the audited sites are a FINDING on the unchanged code (F-C10a, `c10_revoke_keyset_witness`).
+      (error responder, or an error return its caller turns into one) - unless the failure arrived at an audited site or the
+      same call is attempted again (bounded retry loops are unrolled by the translator; the last attempt must be examined).
+      (F-C10a, revocation answering 200 when the key lookup failed, is fixed; no audited site is a finding any more.)
   (4) `c10_handlers_refine_abstract` ties (3) to (2); `c10_device_mapping`, `c10_unvalidated_redirect_guard` pin which error a
       failing storage call is answered with where the property depends on it.
 -/
@@ -120,15 +121,14 @@ def toleratedSites : List Tolerated := [
     why := "introspection answers 200 {\"active\":false}: `response.Active = true` is only assigned after the call succeeded (DESIGN §4.21; the monitor checks active is not true)" },
   { fn := "LegacyServer.Introspect", callee := "getTokenIDAndSubject", allow := ["NewResponse"],
     why := "introspection: an access token that cannot be read (incl. a failing KeySet lookup) is reported as not active" },
-  { fn := "LegacyServer.Revocation", callee := "getTokenIDAndSubjectForRevocation", allow := ["Storage.RevokeToken", "NewResponse"], finding := some "F-C10a",
-    why := "FINDING: a JWT access token whose verification fails because Storage.KeySet failed is handed to RevokeToken as an opaque string; a storage that ignores unknown tokens makes the endpoint answer 200 although nothing was revoked" },
   { fn := "GetTokenIDAndSubjectFromToken", callee := "getTokenIDAndClaims", allow := ["Storage.VerifyExchangeActorToken", "Storage.VerifyExchangeSubjectToken"],
     why := "token exchange: a subject / actor token the provider cannot read is handed to the storage's own verifier (TokenExchangeTokensVerifierStorage), whose error ends the request; without that interface the request is refused" },
   { fn := "GetTokenIDAndSubjectFromToken", callee := "Storage.TokenRequestByRefreshToken", allow := ["Storage.VerifyExchangeActorToken", "Storage.VerifyExchangeSubjectToken"], why := "token exchange: as above (refresh token as subject / actor token)" },
   { fn := "GetTokenIDAndSubjectFromToken", callee := "VerifyIDTokenHint", allow := ["Storage.VerifyExchangeActorToken", "Storage.VerifyExchangeSubjectToken"], why := "token exchange: as above (ID token as subject / actor token)" },
   { fn := "Introspect", callee := "Storage.SetIntrospectionFromToken", allow := ["httphelper.MarshalJSON"], why := "as LegacyServer.Introspect" },
   { fn := "Introspect", callee := "getTokenIDAndSubject", allow := ["httphelper.MarshalJSON"], why := "as LegacyServer.Introspect" },
-  { fn := "Revoke", callee := "getTokenIDAndSubjectForRevocation", allow := ["Storage.RevokeToken", "httphelper.MarshalJSON"], finding := some "F-C10a", why := "FINDING: as LegacyServer.Revocation" }]
+  { fn := "getTokenIDAndSubjectForRevocation", callee := "VerifyAccessToken", allow := [],
+    why := "revocation: a JWT that does not verify is not one of the provider's tokens and is handed to RevokeToken as an opaque string (RFC 7009: an unknown token is answered with 200); whether the keys could be OBTAINED is reported separately (revocationKeySet records a keySetError, returned as the function's error and answered with server_error by Revoke / LegacyServer.Revocation) - that side channel is outside the tree, the stream checks it (fault at KeySet with JWT access tokens)" }]
 
 /-- the `errors.Is / errors.As` tests on followed error variables, per function (proved equal to the regenerated ones) -/
 def auditedSentinelTests : List (String × String) := [
@@ -178,27 +178,31 @@ theorem c10_wf : WF GenC10.fns audit where
     executed along their own regenerated trees), EVERY position i at which a call into the storage fails, with EVERY error kind:
     the events after the failure contain no success-building step and no further storage call, and the function ends in the
     error class - a handler has run an error responder, a helper returns a non-nil error (`false`) to its caller -
-    or the failure arrived at one of the audited tolerated sites. -/
-theorem c10_fail_closed_handlers_partial :
+    or the failure arrived at one of the audited tolerated sites (by design, none of them a finding), or the same call site is
+    called again later (the attempt was retried inside a bounded retry loop: the statement then applies to that later attempt,
+    so the LAST attempt is the one that must be closed). -/
+theorem c10_fail_closed_handlers :
     ∀ (f : Nat) (F : Fn), GenC10.fns[f]? = some F →
     ∀ (ρ : Env) (tr : List Ev) (x : CV), Run GenC10.fns audit f F.sk ρ tr x →
     ∀ (i g site : Nat) (kind : EKind), tr[i]? = some (.sfail g site kind) →
-      hasAbs (tr.drop (i + 1)) = true ∨
+      hasAbs (tr.drop (i + 1)) = true ∨ retriedAt g site (tr.drop (i + 1)) = true ∨
       (noSucc (tr.drop (i + 1)) = true ∧ noFail (tr.drop (i + 1)) = true ∧ exitOK F.kind x (tr.drop (i + 1)) = true) := by
   intro f F hF ρ tr x hrun i g site kind hi
   have hg : Good F.kind x tr := fn_good c10_wf hF hrun
   have := goodW_get tr i _ hg hi rfl
-  simpa [closed, Bool.or_eq_true, Bool.and_eq_true, and_assoc] using this
+  simpa [closedFor, Bool.or_eq_true, Bool.and_eq_true, and_assoc, or_assoc] using this
 
 /-- for the HTTP handlers proper (no result): after a failing storage call an error responder runs and nothing is built -/
 theorem c10_handlers_answer_with_error :
     ∀ (f : Nat) (F : Fn), GenC10.fns[f]? = some F → F.kind = .void →
     ∀ (ρ : Env) (tr : List Ev) (x : CV), Run GenC10.fns audit f F.sk ρ tr x →
-    ∀ (i g site : Nat) (kind : EKind), tr[i]? = some (.sfail g site kind) → hasAbs (tr.drop (i + 1)) = false →
+    ∀ (i g site : Nat) (kind : EKind), tr[i]? = some (.sfail g site kind) →
+      hasAbs (tr.drop (i + 1)) = false → retriedAt g site (tr.drop (i + 1)) = false →
       hasResp (tr.drop (i + 1)) = true ∧ noSucc (tr.drop (i + 1)) = true ∧ noFail (tr.drop (i + 1)) = true := by
-  intro f F hF hk ρ tr x hrun i g site kind hi hna
-  rcases c10_fail_closed_handlers_partial f F hF ρ tr x hrun i g site kind hi with h | ⟨h1, h2, h3⟩
+  intro f F hF hk ρ tr x hrun i g site kind hi hna hnr
+  rcases c10_fail_closed_handlers f F hF ρ tr x hrun i g site kind hi with h | h | ⟨h1, h2, h3⟩
   · rw [hna] at h; cases h
+  · rw [hnr] at h; cases h
   · rw [hk] at h3; exact ⟨h3, h1, h2⟩
 
 /-! ### connection with the abstract core -/
@@ -228,13 +232,15 @@ theorem runCalls_callsOf_error_iff (tr : List Ev) : (∃ e, runCalls (callsOf tr
     | absorbed g s => rw [callsOf_absorbed]; simpa [noFail, Ev.isFail] using ih
 
 /-- the abstract model applied to the storage calls of an execution predicts an error exactly when one of them failed -
-    and then the regenerated function does end in the error class (or the failure was absorbed at an audited site):
+    and then the regenerated function does end in the error class (or the failure was absorbed at an audited site, or retried):
     the Except-monad reading "a failed call ends the handler with an error" is what the concrete trees do. -/
 theorem c10_handlers_refine_abstract :
     ∀ (f : Nat) (F : Fn), GenC10.fns[f]? = some F →
     ∀ (ρ : Env) (tr : List Ev) (x : CV), Run GenC10.fns audit f F.sk ρ tr x →
       ((∃ e, runCalls (callsOf tr) () = .error e) ↔ ∃ (i g site : Nat) (kind : EKind), tr[i]? = some (Ev.sfail g site kind)) ∧
-      ((∃ e, runCalls (callsOf tr) () = .error e) → hasAbs tr = false → exitOK F.kind x tr = true) := by
+      ((∃ e, runCalls (callsOf tr) () = .error e) → hasAbs tr = false →
+        (∀ (i g site : Nat) (kind : EKind), tr[i]? = some (Ev.sfail g site kind) → retriedAt g site (tr.drop (i + 1)) = false) →
+        exitOK F.kind x tr = true) := by
   intro f F hF ρ tr x hrun
   have hiff : noFail tr = false ↔ ∃ (i g site : Nat) (kind : EKind), tr[i]? = some (Ev.sfail g site kind) := by
     constructor
@@ -251,15 +257,16 @@ theorem c10_handlers_refine_abstract :
     · rintro ⟨i, g, s, k, hi⟩
       simp only [noFail, List.all_eq_false, Bool.not_eq_true, Bool.not_eq_false']
       exact ⟨_, List.mem_of_getElem? hi, rfl⟩
-  refine ⟨(runCalls_callsOf_error_iff tr).trans hiff, fun herr hna => ?_⟩
+  refine ⟨(runCalls_callsOf_error_iff tr).trans hiff, fun herr hna hnr => ?_⟩
   obtain ⟨i, g, s, k, hi⟩ := hiff.mp ((runCalls_callsOf_error_iff tr).mp herr)
-  rcases c10_fail_closed_handlers_partial f F hF ρ tr x hrun i g s k hi with h | ⟨_, _, h3⟩
+  rcases c10_fail_closed_handlers f F hF ρ tr x hrun i g s k hi with h | h | ⟨_, _, h3⟩
   · exfalso
     have : hasAbs tr = true := by
       simp only [hasAbs, List.any_eq_true] at h ⊢
       obtain ⟨e, he, ha⟩ := h
       exact ⟨e, List.mem_of_mem_drop he, ha⟩
     rw [hna] at this; cases this
+  · rw [hnr i g s k hi] at h; cases h
   · cases hk : F.kind <;> rw [hk] at h3 <;> simp only [exitOK] at h3 ⊢
     · simp only [hasResp, List.any_eq_true] at h3 ⊢
       obtain ⟨e, he, ha⟩ := h3
@@ -322,43 +329,56 @@ example : drops [] [] [] [] .err (.call 0 (.storage "DeleteAuthRequest") 1 (.cal
     = [(0, .callAfter)] := by decide
 example : drops [] [] [] [] .err (.call 0 (.storage "DeleteAuthRequest") 0 (.ret .nil)) [] (.clean none) = [(0, .retNotErr)] := by decide
 
-/-! ### FINDING F-C10a (the unchanged code): revocation reports success although the key lookup failed -/
+/-! ### the sentinel assumption is load-bearing (known finding F-C10b) -/
 
-/-- a concrete execution of the regenerated `Revoke` handler (public client, `token_type_hint=access_token`, a JWT access token):
-    `Storage.KeySet` fails inside OpenIDKeySet.VerifySignature, five functions below the handler; getTokenIDAndSubjectForRevocation
-    turns the error into `ok = false`, which Revoke does not look at: RevokeToken is called with the unparsed token and the handler
-    builds the 200 answer.  A failing storage call IS followed by a success step - which is why the two revocation rows of
-    `toleratedSites` are marked as a finding and the main theorem is `…_partial`.  Replayed on the real handlers by the stream
-    (flow revoke, JWT access tokens, fault at KeySet; known-findings.jsonl F-C10a). -/
-def revokeWitnessScript : List Choice :=
-  [.pick "ParseTokenRevocationRequest", .val .nil, .val .nil, .right, .right, .right, .ok, .left, .right, .sent, .left, .left,
-   .pick "getTokenIDAndSubjectForRevocation", .val (.hard .plain), .pick "VerifyAccessToken", .val .nil, .val .nil, .right,
-   .pick "oidc.CheckSignature", .val .nil, .right, .right, .pick "OpenIDKeySet.VerifySignature", .fail .plain, .ok]
+/-- `benignSentinels` ASSUMES that a failing storage call does not return these values.  If `AuthorizeClientIDSecret` does answer
+    with an error that matches `ErrNoClientCredentials` (class `sent`: the model does not count it as a failure), ClientBasicAuth
+    hands it on, `ClientIDFromRequest` takes it for "no Basic header was sent" and returns the form's client_id without an error.
+    The stream injects exactly this value (kinds `ErrNoClientCredentials`, `wrap:ErrNoClientCredentials`) and the real handlers
+    then issue device codes: known-findings.jsonl F-C10b. -/
+example : (execFn GenC10.fns audit "ClientIDFromRequest"
+    [.val .nil, .val .nil, .right, .pick "ClientBasicAuth", .left, .right, .right, .sent, .left, .right]).map (fun r => (r.1.any Ev.isFail, r.2)) =
+    some (false, .nil) := by decide
 
-/-- the event at position 2 is a failed storage call and a success step follows it -/
-def revokeWitnessCheck : Option (List Ev × CV) → Bool
-  | some (tr, _) => (tr[2]?.any Ev.isFail) && !noSucc (tr.drop 3)
-  | none => false
+/-! ### bounded retry loops (unrolled by the translator: `.attempt i n`, then the statements after the loop) -/
 
-theorem c10_revoke_keyset_witness :
-    ∃ (f : Nat) (F : Fn) (tr : List Ev) (x : CV) (i : Nat) (e : Ev),
-      GenC10.fns.findIdx? (·.name == "Revoke") = some f ∧ GenC10.fns[f]? = some F ∧
-      Run GenC10.fns audit f F.sk (fun _ => .nil) tr x ∧
-      tr[i]? = some e ∧ e.isFail = true ∧ noSucc (tr.drop (i + 1)) = false := by
-  have h : revokeWitnessCheck (execFn GenC10.fns audit "Revoke" revokeWitnessScript) = true := by decide
-  cases hr : execFn GenC10.fns audit "Revoke" revokeWitnessScript with
-  | none => rw [hr] at h; cases h
-  | some r =>
-    obtain ⟨tr, x⟩ := r
-    rw [hr] at h
-    simp only [revokeWitnessCheck, Bool.and_eq_true] at h
-    obtain ⟨f, F, hf, hF, hrun⟩ := execFn_sound hr
-    cases he : tr[2]? with
-    | none => simp [he] at h
-    | some e => exact ⟨f, F, tr, x, 2, e, hf, hF, hrun, he, by simpa [he] using h.1, by simpa using h.2⟩
+/-- a CORRECT retry loop around a storage call - three attempts, `continue` on the retry sentinel, any other error returned,
+    and the error of the LAST attempt examined after the loop - passes: re-calling the same site supersedes the failure -/
+example : drops [] [] ["Storage.Store"] [] .err
+    (.attempt 1 3 (.call 0 (.storage "Store") 0 (.ifIs 0 "ErrRetry"
+      (.attempt 2 3 (.call 0 (.storage "Store") 0 (.ifIs 0 "ErrRetry"
+        (.attempt 3 3 (.call 0 (.storage "Store") 0 (.ifIs 0 "ErrRetry"
+          (.ifErr 0 (.ret (.var 0 [] "")) (.succ "build" (.ret .nil)))                      -- bound exhausted: the last error is examined
+          (.ifErr 0 (.ret (.var 0 [] "")) (.ifErr 0 (.ret (.var 0 [] "")) (.succ "build" (.ret .nil)))))))
+        (.ifErr 0 (.ret (.var 0 [] "")) (.ifErr 0 (.ret (.var 0 [] "")) (.succ "build" (.ret .nil)))))))
+      (.ifErr 0 (.ret (.var 0 [] "")) (.ifErr 0 (.ret (.var 0 [] "")) (.succ "build" (.ret .nil)))))))
+    [] (.clean none) = [] := by decide
 
-/-- the same execution in events: a successful client lookup, the refresh-token lookup (not a refresh token), the failing KeySet call, the audited site, RevokeToken, the 200 -/
-example : (execFn GenC10.fns audit "Revoke" revokeWitnessScript).map (fun r => r.1.map fun e => (e.isCall, e.isFail, e.isAbs, e.isSucc)) =
-    some [(true, false, false, false), (true, false, false, false), (true, true, false, false), (false, false, true, false), (true, false, false, false), (false, false, false, true)] := by decide
+/-- the distinct drops of a list -/
+def dropSet (l : List (Nat × DropKind)) : List (Nat × DropKind) := l.foldr (fun d acc => if acc.contains d then acc else d :: acc) []
+
+/-- the shape of the seeded defect C10-E - the same loop, but after the last attempt the code goes on to build the response -
+    is reported as a dropped error AT THE STORAGE CALL SITE (site 0) -/
+example : dropSet (drops [] [] ["Storage.Store"] [] .err
+    (.attempt 1 3 (.call 0 (.storage "Store") 0 (.ifIs 0 "ErrRetry"
+      (.attempt 2 3 (.call 0 (.storage "Store") 0 (.ifIs 0 "ErrRetry"
+        (.attempt 3 3 (.call 0 (.storage "Store") 0 (.ifIs 0 "ErrRetry"
+          (.succ "build" (.ret .nil))                                                      -- bound exhausted: nobody looks at the error
+          (.ifErr 0 (.ret (.var 0 [] "")) (.succ "build" (.ret .nil))))))
+        (.ifErr 0 (.ret (.var 0 [] "")) (.succ "build" (.ret .nil))))))
+      (.ifErr 0 (.ret (.var 0 [] "")) (.succ "build" (.ret .nil))))))
+    [] (.clean none)) = [(0, .succAfter)] := by decide
+
+/-- a retry may only repeat the SAME storage call: calling something else while the failure is pending stays a drop -/
+example : drops [] [] ["Storage.A", "Storage.B"] [] .err
+    (.call 0 (.storage "A") 0 (.call 1 (.storage "B") 1 (.ifErr 1 (.ret (.var 1 [] "")) (.ret .nil)))) [] (.clean none) = [(0, .callAfter)] := by decide
+
+/-- an execution of a two-attempt retry: the first attempt fails, the second succeeds, the response is built - the failure is
+    followed by a call at the same site (`retriedAt`), which is the escape clause of `c10_fail_closed_handlers` -/
+def retryDemo : List Fn :=
+  [{ name := "f", file := "", kind := .err, handler := false, nvars := 1, sites := ["Storage.Store"], sk := .attempt 1 2 (.call 0 (.storage "Store") 0 (.ifErr 0 (.attempt 2 2 (.call 0 (.storage "Store") 0 (.ifErr 0 (.ret (.var 0 [] "")) (.succ "build" (.ret .nil))))) (.succ "build" (.ret .nil)))) }]
+
+example : (execFn retryDemo { benign := [], tol := [] } "f" [.fail .plain, .ok]).map (fun r => (r.1, retriedAt 0 0 (r.1.drop 1))) =
+    some ([.sfail 0 0 .plain, .sok 0 0, .succ "build"], true) := by decide
 
 end C10
